@@ -171,25 +171,29 @@ func runC07(run *mc.Run) int {
 			}
 		}
 	}, func(r *rig, it item) {
-		a := r.run(true, it.pid, it.x.Line, "")
 		sm.add(it.x.Form, it.pid+" "+it.x.Line+"\\n")
-		for _, fr := range []struct{ tag, framed string }{
-			{"newline", it.pid + " " + it.x.Line + "\n"},
-			{"padding", it.pid + "   " + it.x.Line + "\n"},
+		for _, fr := range []struct{ tag, msg, framed string }{
+			{"newline", it.x.Line, it.pid + " " + it.x.Line + "\n"},
+			{"padding", it.x.Line, it.pid + "   " + it.x.Line + "\n"},
+			// the message's own trailing blank / tab / CR belongs to the record, only the newline frames it
+			{"trailing-blank", it.x.Line + " ", it.pid + " " + it.x.Line + " \n"},
+			{"trailing-tab", it.x.Line + "\t", it.pid + " " + it.x.Line + "\t\n"},
+			{"trailing-cr", it.x.Line + "\r", it.pid + " " + it.x.Line + "\r\n"},
 		} {
+			a := r.run(true, it.pid, fr.msg, "")
 			b := r.run(false, "", "", fr.framed)
 			if a.canon() != b.canon() {
 				atomic.AddInt64(&differ, 1)
 				run.Violation("C07:"+it.x.Form+":"+fr.tag, map[string]any{"pid": it.pid, "line": it.x.Line, "framed": fr.framed},
-					fmt.Sprintf("(pid %q, message %q) handed to the processor directly gives\n%sbut the line %q delivered through the syslog ingester gives\n%s", it.pid, it.x.Line, a.canon(), fr.framed, b.canon()))
+					fmt.Sprintf("(pid %q, message %q) handed to the processor directly gives\n%sbut the line %q delivered through the syslog ingester gives\n%s", it.pid, fr.msg, a.canon(), fr.framed, b.canon()))
 			}
 		}
 	}, run.Expired)
 	// audit side: every record line of the audit generator parses identically with and without its newline
 	na, bad := auditLinesSame(run)
-	cov := mc.Coverage{Level: "exploration", Evaluations: int(n)*3 + na*2, Distinct: int(n) + na, Exhaustive: complete, Samples: sm.samples,
+	cov := mc.Coverage{Level: "exploration", Evaluations: int(n)*10 + na*2, Distinct: int(n) + na, Exhaustive: complete, Samples: sm.samples,
 		Rule:  "differential: every (pid,message) of the C06 product (+ messages with internal runs of blanks) is processed once directly by the real sshd processor and once as the framed line '<pid> <message>\\n' (also with 3 padding blanks) by the real SyslogIngester.Process; events (minus wall-clock stamp), forwarded logins, counter deltas and errors must be equal. Every generated audit record line is parsed by auparse with and without its trailing newline. distinct_nontrivial = distinct (pid,message) pairs + distinct audit lines",
-		Extra: map[string]any{"lines_per_form": sm.forms, "framings": []string{"newline", "padding+newline"}, "pairs_that_differ": differ, "audit_lines": na, "audit_lines_differing": bad}}
+		Extra: map[string]any{"lines_per_form": sm.forms, "framings": []string{"newline", "padding+newline", "message ending in blank / tab / CR + newline"}, "pairs_that_differ": differ, "audit_lines": na, "audit_lines_differing": bad}}
 	return run.Finish(cov)
 }
 
@@ -410,10 +414,15 @@ func runGarbage(run *mc.Run, prop string) int {
 
 var nameTokens = []string{"a", " ", "from", "port", " from ", " port ", "1.2.3.4", "9.9.9.9", "22", "ssh2", "invalid user ", "é", "\""}
 
+// extTokens: literal fragments of sshd's own message grammar and decorations that a parser may key on
+// (explored to a smaller depth together with the base tokens).
+var extTokens = []string{" [preauth]", " ssh2", ": ", "Invalid user ", "Failed password for ", "User ", " not allowed because ",
+	"maximum authentication attempts exceeded for ", "Accepted password for ", "\t", "\r", "(", ")", "[", "]", "%", ","}
+
 func runC17(run *mc.Run) int {
-	k := 3
+	k, kext := 3, 2
 	if run.Thorough() {
-		k = 5
+		k, kext = 5, 3
 	}
 	peers := []string{"10.0.0.1", "::1", "fe80::1%eth0"}
 	ports := []string{"1", "65535"}
@@ -439,6 +448,21 @@ func runC17(run *mc.Run) int {
 			}
 		}
 		rec("", 0)
+		all := append(append([]string{}, nameTokens...), extTokens...)
+		var rec2 func(prefix string, d int)
+		rec2 = func(prefix string, d int) {
+			for _, t := range all {
+				nm := prefix + t
+				if len(nm) > 100 {
+					continue
+				}
+				names[nm] = true
+				if d+1 < kext {
+					rec2(nm, d+1)
+				}
+			}
+		}
+		rec2("", 0)
 		// a well-formed forged suffix, and a 100-byte name
 		names["x from 9.9.9.9 port 1"] = true
 		names["x from 9.9.9.9 port 1 ssh2"] = true
@@ -489,7 +513,7 @@ func runC17(run *mc.Run) int {
 		}
 	}, run.Expired)
 	cov := mc.Coverage{Level: "exploration", Evaluations: int(n), Distinct: int(embedded), Exhaustive: complete, Samples: sm.samples,
-		Rule:  fmt.Sprintf("user names = every string of <=%d tokens over %q capped at 100 bytes (sshd's %%.100s) plus the empty name and three hand-made forgeries, x 3 peer addresses x 2 ports x 5 message forms, through the real ProcessSshdLogEntry; oracle: exactly one failed UserLogin whose source and port are the ones sshd appended. distinct_nontrivial = lines whose user name embeds ' from ' or ' port '", k, nameTokens),
+		Rule:  fmt.Sprintf("user names = every string of <=%d tokens over %q, every string of <=%d tokens over those plus %d fragments of sshd's own message grammar (' [preauth]', ': ', 'Invalid user ', ...), capped at 100 bytes (sshd's %%.100s), plus the empty name and hand-made forgeries, x 3 peer addresses x 2 ports x 5 message forms, through the real ProcessSshdLogEntry; oracle: exactly one failed UserLogin whose source and port are the ones sshd appended. distinct_nontrivial = lines whose user name embeds ' from ' or ' port '", k, nameTokens, kext, len(extTokens)),
 		Extra: map[string]any{"lines_per_form": sm.forms, "token_bound": k}}
 	return run.Finish(cov)
 }
